@@ -347,3 +347,21 @@ Theorem C06_hyrax_combinations_complete :
     default_check_combinations (list gel) (list HProof) (list F) (hb_check keylen) lcs cs eqn_qs eqn_ev pfs (Some evs) ch = Ok (true, ch').
 Proof. exact @hyrax_lc_complete. Qed.
 Print Assumptions C06_hyrax_combinations_complete.
+
+(* Marlin-PST13 open_combinations -> check_combinations, end to end (free-module view): honest commitments (coordinate-wise the
+   evaluations of well-formed polynomials and blinding polynomials at the trapdoor), distinct combination labels, points with at
+   least num_vars coordinates, claims that are the stated combinations of the true evaluations *)
+From PC Require Import Proofs.PST13BatchComplete Proofs.PST13LCComplete.
+Theorem C06_pst13_combinations_complete :
+  forall (FO : FieldOps) (FL : FieldLaws FO) nv s betas lcs items cs qs ev chal vtape pfs rest,
+    pl_honest nv betas (of_list N.compare items) ->
+    pl_agree (of_list N.compare items) (of_list N.compare cs) ->
+    NoDup (map fst lcs) ->
+    (forall pl pt labels, In (pl, (pt, labels)) (groups qs) -> (nv <= length pt)%nat) ->
+    (forall pl pt labels lab terms, In (pl, (pt, labels)) (groups qs) -> In lab labels -> In (lab, terms) lcs ->
+        lookup_eval lab pt ev = Some (LC.lc_value (p_poly_of (of_list N.compare items) pt) terms)) ->
+    (length (groups qs) <= length vtape)%nat ->
+    pst_open_combinations nv s betas lcs items qs chal = Ok (pfs, rest) ->
+    pst_check_combinations nv betas lcs cs qs ev pfs chal vtape = Ok (true, rest, length (groups qs)).
+Proof. exact @pst13_lc_complete. Qed.
+Print Assumptions C06_pst13_combinations_complete.
